@@ -294,4 +294,5 @@ VARIANTS = [
     V("split-first-underscore", F, "split, _, suffix = name.rpartition(\"_\")", "split, _, suffix = name.partition(\"_\")", "C16.R3"),
     V("suffix-not-checked", F, "if split == \"\" or not suffix.isdigit():", "if split == \"\":", "C16.R3"),
     V("no-length-check", F, "            if v != len(indices):\n", "            if False:\n", "C16.R4"),
+    V("silent-rename-pshapes", F, "pshapes", "shapes", None, count=4),
 ]
